@@ -26,6 +26,8 @@ import typing as T
 
 from ..core import attr_chain, call_name
 
+PY_PURE = {'sorted', 'str', 'list', 'tuple', 'set', 'frozenset', 'reversed', 'len', 'repr', 'enumerate', 'zip', 'map', 'filter', 'iter', 'next', 'dict',
+           'int', 'bool', 'min', 'max', 'sum', 'any', 'all', 'isinstance', 'getattr', 'format', 'bytes', 'range', 'type', 'bin', 'hex', 'ord', 'chr'}
 MUTATORS = {'append', 'extend', 'insert', 'add', 'update', 'setdefault', 'appendleft', 'extendleft'}
 
 
@@ -50,9 +52,10 @@ class SanCall(T.NamedTuple):
 
 
 class OFlow:
-    def __init__(self, fn: T.Union[ast.FunctionDef, ast.AsyncFunctionDef], cut: T.Iterable[str] = ()):
+    def __init__(self, fn: T.Union[ast.FunctionDef, ast.AsyncFunctionDef], cut: T.Iterable[str] = (), opaque: bool = False):
         self.fn = fn
         self.cut = set(cut)
+        self.opaque = opaque      # tag what passes through a repository callee we do not see into as `via:<callee>|origin`
         self.params: T.List[str] = []
         for f in [fn] + [n for n in ast.walk(fn) if n is not fn and isinstance(n, (ast.FunctionDef, ast.AsyncFunctionDef, ast.Lambda))]:
             a = f.args
@@ -111,6 +114,12 @@ class OFlow:
             elif isinstance(n, ast.Call) and isinstance(n.func, ast.Attribute) and n.func.attr in MUTATORS:
                 for a in list(n.args) + [k.value for k in n.keywords]:
                     self._bind(n.func.value, a.value if isinstance(a, ast.Starred) else a, self.defs)
+
+    def _is_opaque(self, e: ast.Call) -> bool:
+        f = e.func
+        if isinstance(f, ast.Name):
+            return f.id not in PY_PURE and f.id not in self.defs and f.id not in self.params
+        return isinstance(f, ast.Attribute) and isinstance(f.value, ast.Name) and f.value.id in ('self', 'cls')
 
     # -- evaluation ------------------------------------------------------
     def origins(self, e: ast.AST, env: T.Optional[Env] = None) -> T.Set[str]:
@@ -188,6 +197,15 @@ class OFlow:
                                               {k.arg: k.value for k in e.keywords if k.arg})
                 return
             out.add(f'call:{cn}')
+            if self.opaque and self._is_opaque(e):
+                sub: T.Set[str] = set()
+                for a in e.args:
+                    self._leaves(a.value if isinstance(a, ast.Starred) else a, sub, busy, env)
+                for k in e.keywords:
+                    self._leaves(k.value, sub, busy, env)
+                for o in sub:
+                    out.add(o if o.split(':', 1)[0] in ('const', 'san', 'via') or o == 'param:self' else f'via:{cn}|{o}')
+                return
             if isinstance(e.func, ast.Attribute):
                 self._leaves(e.func.value, out, busy, env)
             for a in e.args:
@@ -213,6 +231,14 @@ class OFlow:
             for ch in ast.iter_child_nodes(e):
                 if isinstance(ch, (ast.expr, ast.keyword, ast.FormattedValue)):
                     self._leaves(ch, out, busy, env)
+
+
+def via_of(o: str) -> T.Optional[T.Tuple[str, str]]:
+    """'via:callee|origin' -> (callee, origin)"""
+    if o.startswith('via:'):
+        c, _, rest = o[4:].partition('|')
+        return c, rest
+    return None
 
 
 def strip_proj(o: str) -> str:
